@@ -74,6 +74,11 @@ def shapes(quick):
     for nm, v in (('nan', float('nan')), ('inf', float('inf')), ('ninf', float('-inf')), ('zero', 0.0), ('nzero', -0.0),
                   ('big', 1e21), ('tiny', 5e-324), ('frac', 0.1), ('max', 1.7976931348623157e308), ('int53', 9007199254740993.0)):
         reg('num-' + nm, lambda h, l, v=v: h.num(v))
+    # values whose scientific spelling has a non-trivial mantissa, a negative or an extreme exponent (reader direction of C04)
+    for nm, v in (('sci-a', 1.1e-5), ('sci-b', 3e-5), ('sci-c', 1.2345e-7), ('sci-d', 2.2250738585072014e-308), ('sci-e', 1e-320),
+                  ('sci-f', 123456.789), ('sci-g', 0.30000000000000004)):
+        reg('num-' + nm, lambda h, l, v=v: h.num(v))
+    reg('num-sci-unit', lambda h, l: h.num(0.000987, 'kilowatt'))
     for u in ('percent', 'us_dollar', 'fahrenheit', 'square_meter', 'kilowatt_hour', 'meters_per_second'):
         reg('num-unit-' + u, lambda h, l, u=u: h.num(dec_float(h.ex, l, 1, 1), u))
     reg('num-nan-unit', lambda h, l: h.num(float('nan'), 'meter'), wf=False)
